@@ -3,6 +3,9 @@ NEXT Next
 CONSTANTS MaxNodes = 3
           LetDepth = 1
           Level = "quick"
+          PerMid = 1
+          PerLet = 1
+          PerBig = 1
           Lanes = 64
 INVARIANT SpecSane
 CHECK_DEADLOCK FALSE
